@@ -547,6 +547,17 @@ def rejection_cases(chk):
         p.bankdef({"addr": 0, "unit": 1, "labelalign": None, "size": s1, "outp": o1, "fill": False}, "a", 1)
         p.bankdef({"addr": 0, "unit": 1, "labelalign": None, "size": 1, "outp": 0, "fill": False}, "b", 1)
         out.append(("window_end_overflow_F48", None, p))
+    # only WRITES are compared with BIGINT_MAX_BITS (commit 79637a5): labels and reservations far out are fine
+    for what in ("label", "res"):
+        p = Prog(); p.addr(0x10000000)
+        if what == "label":
+            p.label()
+        else:
+            p.res(1)
+        out.append(("huge_position_unwritten_" + what, False, p))
+    # F61: outp + position overflows usize for an item that is not written (get_output_position, plain +)
+    p = Prog(); p.bankdef(bank(8, None, outp=U64), "a", 1); p.res(1); p.label()
+    out.append(("output_position_overflow_F61", None, p))
     p = Prog(); p.bankdef(bank(0x80000000), "a", 1); p.res(0xffffffff); p.res(0xffffffff); p.res(4); p.label()
     out.append(("extreme_position_wrap_F42", True, p))
     return out
@@ -577,6 +588,13 @@ def compare_program(chk, p, family, must_reject, d, r, m, known, stats):
                   "check_bank_overlap (debug %s, release %s; the model's checked addition panics too)" % (d[:20], r[:20]))
         stats["crash"] += 1
         return True
+    if family.startswith("output_position_overflow") and (d != r or canon_impl(d) not in ("OK", "ERR")) and m.split(" ")[0] == "PANIC":
+        anyk = {f.get("class"): f for f in vlib.known_findings() if f.get("status") == "known"}
+        if "output_position_overflow_unwritten" in anyk:
+            chk.known(anyk["output_position_overflow_unwritten"]["id"], "class=output_position_overflow_unwritten: outp + position overflows usize in "
+                      "get_output_position for an unwritten item (debug %s, release %s; the model's checked addition panics too)" % (d[:20], r[:20]))
+            stats["crash"] += 1
+            return True
     if d != r:
         chk.violation("debug and release builds disagree (%s)" % family, dict(rep, kind="profile-divergence"))
         return False
@@ -658,7 +676,7 @@ def run(chk):
     vlib.extraction("ExLayout")
     model = vlib.ocaml_build("layout_driver", ["layout_model"])
     bins = vlib.harness_build(("debug", "release"))
-    known = {f["class"]: f for f in vlib.known_findings() if f["property"] == "C06" and f["status"] == "known"}
+    known = {f["class"]: f for f in vlib.known_findings() if f.get("property") == "C06" and f.get("status") == "known" and f.get("class")}
     nops, ndis = run_ops(chk, bins, model, known)
 
     # ---- whole programs
